@@ -1802,7 +1802,14 @@ pub fn after_collect_quiet(wd: &World) {
     }
     let pinned = remain.iter().filter(|id| !reach.contains(id)).count() as u64;
     wd.stats.pinned_garbage_left.set(wd.stats.pinned_garbage_left.get() + pinned);
-    // garbage dropped but not freed is C03's business (promptness), judged at the QP
+    // "... dropped and deallocated": at top level (no destructor in flight) a value that has been dropped must have had its
+    // box released by now (the same observation is C03's promptness clause at the quiescent point)
+    if !wd.in_callback() {
+        let undead: Vec<u32> = m.objs.iter().filter(|o| o.val == Val::Dropped && o.box_live && !o.glue_pending).map(|o| o.id).collect();
+        if !undead.is_empty() {
+            wd.err(prop, "garbage_not_deallocated", "dropped_but_box_live".into(), format!("after collect_cycles() was repeated until quiet, the values of {:?} have been dropped but their allocations are still live (allocated_bytes() keeps counting them)", undead));
+        }
+    }
     let mut h = vcommon::rng::Fnv::new();
     let mut dropped: Vec<u32> = m.objs.iter().filter(|o| o.val == Val::Dropped).map(|o| o.id).collect();
     dropped.sort();
